@@ -584,7 +584,14 @@ pub fn cache(attr: TokenStream, item: TokenStream) -> TokenStream {
 
     // Extract return type
     let ret_type = match &sig.output {
-        ReturnType::Type(_, ty) => quote! { #ty },
+        ReturnType::Type(_, ty) => {
+            // `-> (T)` is the same type as `-> T` (the Result detection below goes by the spelling)
+            let mut ty: &syn::Type = ty;
+            while let syn::Type::Paren(p) = ty {
+                ty = &p.elem;
+            }
+            quote! { #ty }
+        }
         ReturnType::Default => quote! { () },
     };
 
